@@ -344,8 +344,9 @@ func Scopes(quick bool) []Scope {
 		if quick && o1 > 2 {
 			c.Skip()
 		}
+		empties := c.Choose(2, "empty lists spelled: omitted | []") == 1
 		w := &wm.World{NSs: NsConfigs[0], WLs: ThreeWL(CPortAlpha[1], CPortAlpha[2], CPortAlpha[3])}
-		np := wm.NP{NS: "ns1", Name: "p", PodSel: *ml("app", "a"), Types: types}
+		np := wm.NP{NS: "ns1", Name: "p", PodSel: *ml("app", "a"), Types: types, IngressEmptyList: empties, EgressEmptyList: empties}
 		var rs, os []wm.NPRule
 		if n1 > 0 {
 			rs = append(rs, rl[n1-1])
@@ -355,6 +356,13 @@ func Scopes(quick bool) []Scope {
 		}
 		if o1 > 0 {
 			os = append(os, rl[o1-1])
+		}
+		if empties {
+			for _, l := range [][]wm.NPRule{rs, os} {
+				for i := range l {
+					l[i].PeersEmptyList, l[i].PortsEmptyList = true, true
+				}
+			}
 		}
 		if dir == "Egress" {
 			np.Egress, np.Ingress = rs, os
